@@ -436,19 +436,37 @@ fn run(case: &Case, out: &mut Out) {
                     out.obs(&[ts("gone")]);
                     continue;
                 }
-                let hard = op.args[0].s() == "hard";
-                wk.n += 1;
-                let id = format!("REQ-{}", wk.n);
-                let req = if hard { RequestType::HardStop(HardStop {}) } else { RequestType::SoftStop(SoftStop {}) };
-                wk.send(&id, &Request { request_type: Some(req) });
-                let (mut fin, mut pr) = (0, 0);
+                // one or more requests written back-to-back (one write): soft / hard stops and
+                // plain Status requests; everything up to and including the first hard stop
+                // must get exactly one final answer
+                let kinds: Vec<String> = op.args.iter().map(|a| a.s().to_string()).collect();
+                let mut ids = vec![];
+                let mut bytes = vec![];
+                for k in &kinds {
+                    wk.n += 1;
+                    let id = format!("REQ-{}", wk.n);
+                    let req = match k.as_str() {
+                        "hard" => RequestType::HardStop(HardStop {}),
+                        "soft" => RequestType::SoftStop(SoftStop {}),
+                        _ => RequestType::Status(Status {}),
+                    };
+                    let wr = WorkerRequest { id: id.clone(), content: Request { request_type: Some(req) } };
+                    bytes.extend_from_slice(&frame(&wr.encode_to_vec()));
+                    ids.push(id);
+                }
+                if let Some(sock) = wk.peer.sock.as_mut() {
+                    sock.set_nonblocking(false).ok();
+                    let _ = sock.write_all(&bytes);
+                }
+                let mut fin = vec![0usize; ids.len()];
+                let mut pr = vec![0usize; ids.len()];
                 let t0 = Instant::now();
                 let mut finished_at: Option<Instant> = None;
                 loop {
                     if let Some(f) = wk.peer.wait_frame(50) {
                         if let Ok(r) = WorkerResponse::decode(&f[..]) {
-                            if r.id == id {
-                                if r.status == PROCESSING { pr += 1 } else { fin += 1 }
+                            if let Some(i) = ids.iter().position(|x| *x == r.id) {
+                                if r.status == PROCESSING { pr[i] += 1 } else { fin[i] += 1 }
                             }
                         }
                         continue;
@@ -462,7 +480,7 @@ fn run(case: &Case, out: &mut Out) {
                 }
                 // the channel may close a little before the thread has returned
                 let tj = Instant::now();
-                while !wk.job.as_ref().map(|j| j.is_finished()).unwrap_or(true) && tj.elapsed() < Duration::from_secs(if fin >= 1 { 10 } else { 1 }) {
+                while !wk.job.as_ref().map(|j| j.is_finished()).unwrap_or(true) && tj.elapsed() < Duration::from_secs(if fin.iter().any(|f| *f >= 1) { 10 } else { 1 }) {
                     std::thread::sleep(Duration::from_millis(1));
                 }
                 let joined = match wk.job.take() {
@@ -471,15 +489,19 @@ fn run(case: &Case, out: &mut Out) {
                     None => false,
                 };
                 dead = true;
+                let label = kinds.join("+");
                 if !joined {
-                    out.viol("worker-died", &format!("{} stop: the worker thread did not end cleanly", if hard { "hard" } else { "soft" }));
+                    out.viol("worker-died", &format!("{label} stop: the worker thread did not end cleanly"));
                 }
-                if fin != 1 {
-                    out.viol(if fin == 0 { "no-answer" } else { "two-answers" }, &format!("{}Stop: {fin} final answers, {pr} processing", if hard { "Hard" } else { "Soft" }));
+                let served = kinds.iter().position(|k| k == "hard").map(|p| p + 1).unwrap_or(kinds.len());
+                for i in 0..served {
+                    if fin[i] != 1 {
+                        out.viol(if fin[i] == 0 { "no-answer" } else { "two-answers" },
+                                 &format!("{label} stop: request {} ({}) got {} final answers, {} processing", i + 1, kinds[i], fin[i], pr[i]));
+                    }
                 }
-                // the count of the stop's own answers is judged by the oracle above (soft-stop
-                // completion depends on the session table, which the arms model does not contain)
-                let _ = pr;
+                // the count of the stops' own answers is judged by the oracle above (soft-stop
+                // completion depends on the session table, which the model abstracts as EDrained)
                 out.obs(&[ts("stopped")]);
             }
             "end" => {
